@@ -20,7 +20,7 @@ from .. import rig as R, ref, gen, dump, ov
 from ..orch import h
 
 ID = "C14"
-TECHNIQUE = 'runtime monitoring - authorization matrix recomputed by the harness (role-set intersection) against observed behaviour on every path (EVENT, stored REQ, live push), output-validator call log matched against every EVENT frame, role read-back incl. close/re-open'
+TECHNIQUE = 'runtime monitoring - authorization matrix recomputed by the harness (role-set intersection) against observed behaviour on every path (EVENT, stored REQ, live push), output-validator call log matched against every EVENT frame, role read-back incl. close/re-open; end-to-end shard: role assignments changed by an admin process (and, on LMDB, through one worker and then another) read back on connections of every worker process; events the configured output validator refuses published on one worker must not be pushed to subscribers of another'
 LEVEL = "exploration"
 RULE = (
     "cases = (backend, action->roles map with save and query each drawn from the non-empty subsets of {a,r,w,s} (all 225 "
@@ -34,12 +34,13 @@ RULE = (
     "checked. Distinct = distinct (backend, save roles, query roles, token roles, action, path)."
 )
 ASSUMPTIONS = [
+    "end-to-end shards: a real gunicorn/uvicorn server process tree started from the tree under test (vf/e2e_launch.py: the repository's run_with_gunicorn / run_with_uvicorn; the SQL schema is made with the repository's metadata.create_all because its alembic env.py does not run with the installed SQLAlchemy; the notifier's fixed TCP port 6000 is replaced by a free port), spoken to over loopback TCP with the websockets client; real time, real sleeps",
     "roles are obtained through the real AUTH handshake (challenge from the relay, kind-22242 answer signed by the harness)",
     "the output validator is harness code configured through the relay's own output_validator option",
     "LMDB backend over /verif/shim; SQL = SQLite",
 ]
 MIN_NONTRIVIAL = {"quick": 150, "thorough": 1500}
-REQUIRED_COUNTERS = ["cells.save", "cells.query_stored", "cells.query_stored_concurrent", "cells.query_live", "cells.can_do", "cells.refused_then_authenticated",
+REQUIRED_COUNTERS = ["e2e.e2e_role_readbacks", "e2e.e2e_output_validator_cross_worker_pairs", "cells.save", "cells.query_stored", "cells.query_stored_concurrent", "cells.query_live", "cells.can_do", "cells.refused_then_authenticated",
                      "validator.frames_checked", "readback.assignments", "readback.after_reopen", "readback.listed"]
 SHARD_TIMEOUT = {"quick": 600, "thorough": 3200}
 ALPHA = "arws"
@@ -47,6 +48,18 @@ SUBSETS = ["".join(c) for n in range(1, 5) for c in itertools.combinations(ALPHA
 
 
 def plan(tier, seed):
+    return _plan(tier, seed) + e2e_plan(tier, seed)
+
+
+def e2e_plan(tier, seed):
+    """shards on a REAL server process tree (vf/e2e.py)"""
+    out = [{"mode": "e2e", "e2e": "c14", "backend": "sql", "workers": 2, "seed": seed}, {"mode": "e2e", "e2e": "c14", "backend": "lmdb", "workers": 2, "seed": seed}]
+    if tier == "thorough":
+        out += [{"mode": "e2e", "e2e": "c14", "backend": b, "workers": 3, "seed": seed + 1} for b in ("sql", "lmdb")]
+    return out
+
+
+def _plan(tier, seed):
     maps = [(s, q) for s in SUBSETS for q in SUBSETS]
     r = random.Random(seed)
     r.shuffle(maps)
@@ -440,6 +453,10 @@ async def run_reopen(backend, n, counters, seed):
 
 
 def run_shard(spec):
+    if spec.get("mode") == "e2e":
+        from .. import e2e_cases
+
+        return e2e_cases.run_e2e_shard(ID, spec)
     counters = {}
     viols, nontrivial = [], []
     if spec.get("mode") == "readback":
@@ -467,6 +484,10 @@ def run_shard(spec):
 
 
 def replay(rp, spec):
+    if rp.get("mode") == "e2e":
+        from .. import e2e_cases
+
+        return e2e_cases.run_e2e_shard(ID, rp)
     counters = {}
     if rp.get("mode") == "reopen":
         v, nt = R.run(run_reopen, rp["backend"], rp["n"], counters, rp["seed"])
